@@ -285,43 +285,43 @@ def render_methods(lang, blocks):
     counter = [0]
     if lang == "python":
         for i, b in enumerate(blocks):
-            out.append("def m%d(c0, c1, c2, n, lst):" % i)
+            out.append("def m%d(%s):" % (i, "" if i % 3 == 2 else "c0, c1, c2, n, lst"))
             out += render_block(r, b, 1, counter, [i % 2])
     elif lang in ("javascript", "typescript"):
         ty = lang == "typescript"
         out.append("var x = 0;")
         for i, b in enumerate(blocks):
             if ty:
-                out.append("function m%d(c0: boolean, c1: boolean, c2: boolean, n: number, lst: number[]): number {" % i)
+                out.append("function m%d(%s): number {" % (i, "" if i % 3 == 2 else "c0: boolean, c1: boolean, c2: boolean, n: number, lst: number[]"))
             else:
-                out.append("function m%d(c0, c1, c2, n, lst) {" % i)
+                out.append("function m%d(%s) {" % (i, "" if i % 3 == 2 else "c0, c1, c2, n, lst"))
             out += render_block(r, b, 1, counter, [i % 2])
             out.append("}")
     elif lang == "java":
         out.append("class A {")
         out.append("    static int x;")
         for i, b in enumerate(blocks):
-            out.append("    static int m%d(boolean c0, boolean c1, boolean c2, int n, int[] lst) {" % i)
+            out.append("    static int m%d(%s) {" % (i, "" if i % 3 == 2 else "boolean c0, boolean c1, boolean c2, int n, int[] lst"))
             out += render_block(r, b, 2, counter, [i % 2])
             out.append("    }")
         out.append("}")
     elif lang == "c":
         out.append("int x;")
         for i, b in enumerate(blocks):
-            out.append("int m%d(int c0, int c1, int c2, int n, int* lst) {" % i)
+            out.append("int m%d(%s) {" % (i, "" if i % 3 == 2 else "int c0, int c1, int c2, int n, int* lst"))
             out += render_block(r, b, 1, counter, [i % 2])
             out.append("}")
     elif lang == "go":
         out.append("package main")
         out.append("var x int")
         for i, b in enumerate(blocks):
-            out.append("func m%d(c0 bool, c1 bool, c2 bool, n int, lst []int) int {" % i)
+            out.append("func m%d(%s) int {" % (i, "" if i % 3 == 2 else "c0 bool, c1 bool, c2 bool, n int, lst []int"))
             out += render_block(r, b, 1, counter, [i % 2])
             out.append("}")
     elif lang == "php":
         out.append("<?php")
         for i, b in enumerate(blocks):
-            out.append("function m%d($c0, $c1, $c2, $n, $lst) {" % i)
+            out.append("function m%d(%s) {" % (i, "" if i % 3 == 2 else "$c0, $c1, $c2, $n, $lst"))
             out += render_block(r, b, 1, counter, [i % 2])
             out.append("}")
     else:
